@@ -344,6 +344,37 @@ func (e *Engine) intrinsic(fn *ssa.Function, name string, args []Value, st *Stat
 			return one(st, i64(strings.IndexByte(a, byte(b)))), true
 		}
 		return nil, false
+	case "strings.IndexAny", "strings.ContainsAny":
+		// constant ASCII character set (Go then works byte by byte): first index of a byte of s in the set
+		chars, okc := cstr(args[1])
+		sa, oks := args[0].(*Str)
+		if !okc || !oks {
+			return nil, false
+		}
+		for i := 0; i < len(chars); i++ {
+			if chars[i] >= 0x80 {
+				return nil, false
+			}
+		}
+		if a, ok := cstr(args[0]); ok {
+			if name == "strings.ContainsAny" {
+				return one(st, Bool(strings.ContainsAny(a, chars))), true
+			}
+			return one(st, i64(strings.IndexAny(a, chars))), true
+		}
+		n := sa.Len()
+		idx := BVs(-1, 64)
+		for i := sa.Max() - 1; i >= 0; i-- {
+			in := FF
+			for j := 0; j < len(chars); j++ {
+				in = Or(in, Eq(sa.At(i), BV(uint64(chars[j]), 8)))
+			}
+			idx = Ite(And(Ult(i64(i), n), in), i64(i), idx)
+		}
+		if name == "strings.ContainsAny" {
+			return one(st, Not(Eq(idx, BVs(-1, 64)))), true
+		}
+		return one(st, idx), true
 	case "strings.Join":
 		sv := args[0].(SliceV)
 		sep := args[1].(*Str)
